@@ -76,6 +76,48 @@ pub fn stages(tier: Tier, run: RunFn<Hist>, run_analysis: RunFn<Hist>, rule: &'s
         case_timeout_s: tier.pick(30, 120),
         exhaustive: true,
     }));
+    // a symmetric k-slot class loses one slot (exhaustive over small generator sets, two ways of losing it)
+    v.push(Box::new(Stage {
+        name: "redundancy-in-symmetric-class",
+        source: Source::Enumerate(Arc::new(move || {
+            let mut out: Vec<Hist> = Vec::new();
+            let mut i = 0usize;
+            for c in crate::props::c10::exhaustive_sets(4) {
+                if c.gens.is_empty() || c.gens.len() > 2 || c.k < 3 {
+                    continue;
+                }
+                for d in 0..c.k {
+                    for variant in 0..2u8 {
+                        i += 1;
+                        if c.k == 4 && tier == Tier::Quick && i % 4 != 0 {
+                            continue;
+                        }
+                        let mut h = crate::props::c10::red_hist(&crate::props::c10::RedCase { k: c.k, gens: c.gens.clone(), drop: d });
+                        if variant == 1 {
+                            // instead of a renamed copy: a smaller leaf over the remaining names
+                            let k = c.k as usize;
+                            let rest: Vec<Name> = (0..k as Name).filter(|x| *x != d as Name).collect();
+                            let small = Tm::leaf(if rest.len() == 3 { "h3" } else { "f2" }, &rest);
+                            let n = h.ops.len();
+                            h.ops[n - 2] = HOp::Add(small);
+                            // every permuted copy of the big leaf is compared
+                            for p in crate::props::c10::all_perms_k(k) {
+                                h.ops.push(HOp::Add(crate::props::c10::leaf_term(k, &p)));
+                            }
+                        }
+                        out.push(h);
+                    }
+                }
+            }
+            Box::new(out.into_iter())
+        })),
+        run,
+        panic_is_violation: false,
+        render: |c: &Hist| c.render(),
+        rule: "exhaustive: a k-slot leaf (k = 3, 4) made symmetric by every set of 1-2 permutations, then one slot (each in turn) made redundant, either by a union with a copy in which that slot is renamed or by a union with a smaller leaf over the other names (k = 4: every fourth combination in the quick tier); which slots stay, which become redundant with it (the rest of its orbit) and which symmetries survive is judged by the ground closure",
+        case_timeout_s: tier.pick(30, 120),
+        exhaustive: true,
+    }));
     v
 }
 
